@@ -22,7 +22,7 @@ Ctl == {"Step", "Clock", "End", "Cfg", "Break"}
 
 ObsApply(o, e) ==
   CASE e.e = "GetCall"         -> ObsGetCall(o, e.w, e.now)
-    [] e.e = "GetReturn"       -> ObsGetReturn(o, e.w, e.c, e.fresh, e.now, Life)
+    [] e.e = "GetReturn"       -> ObsGetReturn(o, e.w, e.c, e.fresh, e.now, cfg.life)
     [] e.e = "ReturnCall"      -> ObsReturnCall(o, e.w, e.c)
     [] e.e = "ReturnReturn"    -> ObsReturnReturn(o, e.w)
     [] e.e = "ConnClose"       -> ObsConnClose(o, e.c, e.byHolder)
@@ -43,13 +43,14 @@ Publish(d, o) ==
 Reached(n) == TLCSet(2, [TLCGet(2) EXCEPT ![k] = IF @ < n THEN n ELSE @])
 
 TInit ==
-  /\ InitWith([close |-> FALSE, workers |-> {}, mpk |-> 1, mk |-> 1])
+  /\ InitWith([close |-> FALSE, workers |-> {}, mpk |-> 1, mk |-> 1, life |-> 1, stale |-> 2])
   /\ l = 1 /\ drift = FALSE /\ tno = 0 /\ k = 0
   /\ TLCSet(1, {}) /\ TLCSet(2, [i \in 1..NTr |-> 0])
 
 TReset ==
   /\ IsEv("Cfg")
-  /\ LET c == [close |-> Ev.close, workers |-> ToSet(Ev.workers), mpk |-> Ev.maxPerKey, mk |-> Ev.maxKeys] IN
+  /\ LET c == [close |-> Ev.close, workers |-> ToSet(Ev.workers), mpk |-> Ev.maxPerKey, mk |-> Ev.maxKeys,
+               life |-> Ev.life, stale |-> Ev.stale] IN
        /\ cfg' = c
        /\ wleft' = [w \in Workers |-> IF w \in c.workers THEN Rounds ELSE 0]
        /\ ppc' = IF c.close THEN "pc0" ELSE "none"
